@@ -103,6 +103,11 @@ func TestWorker(t *testing.T) {
 				}
 				w.Flush()
 			}
+			if os.Getenv("VERIF_RES_DEBUG") != "" {
+				fds, _ := os.ReadDir("/proc/self/fd")
+				maps, _ := os.ReadFile("/proc/self/maps")
+				fmt.Fprintf(os.Stderr, "res: plan %d fds=%d maps=%d\n", i, len(fds), strings.Count(string(maps), "\n"))
+			}
 		}
 	case "replay":
 		plan, err := core.LoadPlan(env("VERIF_REPLAY", ""))
